@@ -20,6 +20,7 @@ import re
 from lib import rsx
 from lib.rsx import ExtractError
 from lib.verus_engine import Injector, Obligation
+from units import jit_dispatch
 
 JIT_RS = 'fidget-jit/src/lib.rs'
 VM_RS = 'fidget-core/src/vm/mod.rs'
@@ -481,7 +482,7 @@ def build(repo, trace):
     f_bulk, keys = build_bulk(src, trace)
     f_tr = build_tracing(src, trace)
     trace.drop('everything else of fidget-jit/src/lib.rs (assembler trait, MmapAssembler, JitFunction, Tape impls, evaluator wrappers): not in this unit; the function-pointer fields of JitBulkFn / JitTracingFn (replaced by the stand-ins call_bulk / call_trace)')
-    simd_impls = imp_f.replace('SIMD_WIDTH', 'SIMD_WIDTH_X86') + '\n'
+    d = jit_dispatch.build_dispatch(repo, src, trace)
     text = ('#![feature(allocator_api)]\nuse vstd::prelude::*;\nverus! {\n' + en + '\n\n' + vt + '\n\nimpl VmTrace {\n' + '\n\n'.join(vfns) + '\n}\n\n' + tr + '\n\n' + maxw + '\n'
             + 'pub ' + widths['x86_64'].replace('SIMD_WIDTH', 'SIMD_WIDTH_X86') + '\npub ' + widths['aarch64'].replace('SIMD_WIDTH', 'SIMD_WIDTH_A64') + '\n'
             + 'pub struct Grad { pub v: f32, pub dx: f32, pub dy: f32, pub dz: f32 }\n/// the aarch64 build of `impl SimdSize for f32` (same text, the other architecture\'s SIMD_WIDTH)\npub struct F32A64(pub f32);\n'
@@ -494,6 +495,8 @@ pub proof fn simd_ok_f32_x86_64() ensures simd_ok::<f32>() {}
 pub proof fn simd_ok_f32_aarch64() ensures simd_ok::<F32A64>() {}
 pub proof fn simd_ok_grad() ensures simd_ok::<Grad>() {}
 '''
+            + '\n// ===================================== RegOp -> assembler dispatch =====================================\n'
+            + d['head'] + d['regop'] + jit_dispatch.STATIC + d['sem'] + d['reg'] + d['trait'] + '\n' + d['fn'] + '\n'
             + '\n} // verus!\nfn main() {}\n')
     # place the loop invariants (keyed by what the loop fills from what)
     for key, inv in INV.items():
@@ -533,4 +536,17 @@ pub proof fn simd_ok_grad() ensures simd_ok::<Grad>() {}
             Obligation('jit::lemma_round_down', 'jit', 'lemma_round_down', props=['C02'], kind='lemma')]
     for nm in ('simd_ok_f32_x86_64', 'simd_ok_f32_aarch64', 'simd_ok_grad'):
         obls.append(Obligation('jit::' + nm, 'jit', nm, props=['C02', 'C11'], kind='lemma', note='impl SimdSize: 1 <= SIMD_SIZE <= MAX_SIMD_WIDTH'))
-    return {'texts': {'base': inj.s}, 'obligations': obls, 'canary_fns': ['JitBulkEval::eval', 'JitTracingEval::eval']}
+    inj.proof('build_asm_fn_with_storage', '        k_ += 1;', '        proof { A::imm_reg_outside(); }')
+    inj.proof('build_asm_fn_with_storage', 're:let size_estimate = t\\.len\\(\\) \\* A::bytes_per_clause\\(\\);', '''    proof {
+        assert forall|b: int| 0 <= b <= 64 implies #[trigger] (t.ops().len() * b) <= t.ops().len() * 64 by {
+            assert(t.ops().len() * b <= t.ops().len() * 64) by (nonlinear_arith) requires 0 <= b <= 64;
+        }
+    }''', before=True)
+    obls.append(Obligation('jit::build_asm_fn_with_storage', 'jit', 'build_asm_fn_with_storage', props=['C02', 'C11']))
+    for nm, has_body in d['names']:
+        if has_body:
+            obls.append(Obligation('jit::Assembler::' + nm, 'jit', 'Assembler::' + nm, props=['C02'], note='default method of the trait'))
+    for suf in ('X86', 'A64'):
+        obls.append(Obligation('jit::reg_' + suf, 'jit', 'reg_' + suf, props=['C02', 'C11'], note='fn reg with the constants of that architecture'))
+        obls.append(Obligation('jit::imm_outside_' + suf, 'jit', 'imm_outside_' + suf, props=['C02'], kind='lemma'))
+    return {'texts': {'base': inj.s}, 'obligations': obls, 'canary_fns': ['JitBulkEval::eval', 'JitTracingEval::eval', 'build_asm_fn_with_storage']}
